@@ -204,6 +204,64 @@ func init() {
 		mkFocus("C07", f, OracleSet{Property: "C07", Loadable: true}, sometimesLagfree, false)
 	}
 
+	// ---------------- C02: running HAProxy never diverges from disk after runtime updates
+	dynWeights := map[string]int{"ep_scale": 25, "ep_ready": 10, "ep_replace": 12, "pod_term": 4, "secret_rotate": 8, "ing_ann": 5, "ing_update": 3,
+		"svc_update": 3, "global_change": 1, "renotify": 2, "advance": 6}
+	dynKeys := []string{"affinity", "session-cookie-name", "session-cookie-strategy", "session-cookie-preserve", "session-cookie-value-strategy", "initial-weight",
+		"blue-green-deploy", "backend-server-naming", "slots-min-free", "backend-server-slots-increment", "dynamic-scaling", "balance-algorithm", "maxconn-server",
+		"assign-backend-server-id", "secure-backends", "ssl-redirect"}
+	sockFaults := []string{"sock.dial_refused", "sock.write_fail", "sock.read_timeout", "sock.reset_before_exec", "sock.reset_after_exec", "sock.short_reads",
+		"sock.nonok_reply", "sock.garbage_reply", "disk.read_fail"}
+	mkDyn := func(name string, faults bool) {
+		register(&Profile{Name: name, Prop: "C02", Weight: 1,
+			Oracles: OracleSet{Property: "C02", EffectiveStep: true, EffectiveAtSync: true},
+			Build: func(seed uint64, tier string) *RunConfig {
+				r := cfgRng(seed)
+				mn, mx := tierOps(tier, 10, 30)
+				ctl := sampleCtl(r)
+				rc := &RunConfig{Property: "C02", Profile: name, Seed: seed, Ctl: ctl, MapOrder: r.IntN(2) == 0, Lagfree: r.IntN(3) == 0, MidSched: r.IntN(2) == 0,
+					Legacy24: r.IntN(5) == 0}
+				if faults {
+					rc.Faults = map[string]int{}
+					n := 1 + r.IntN(4)
+					for i := 0; i < n; i++ {
+						rc.Faults[sockFaults[r.IntN(len(sockFaults))]] = pickInt(r, 20, 50, 150)
+					}
+					rc.MaxFaults = 1 + r.IntN(8)
+				}
+				rc.World, rc.Ops = GenerateRun(seed, GenOptions{Sparse: r.IntN(3) == 0, IngressKeys: dynKeys, MinOps: mn, MaxOps: mx, QuiesceEvery: pickInt(r, 3, 6),
+					KeysPerRun: pickInt(r, 3, 6), W: dynWeights, InitialGlobal: map[string]string{"drain-support": []string{"true", "false"}[r.IntN(2)]}, NoForeignClass: true})
+				return rc
+			}})
+	}
+	mkDyn("dyn", false)
+	mkDyn("dyn-faults", true)
+
+	// ---------------- C12: a change is never lost to a transient failure
+	allFaults := []string{"disk.write_fail", "disk.write_torn", "disk.enospc", "disk.read_fail", "sock.dial_refused", "sock.write_fail", "sock.read_timeout",
+		"sock.reset_before_exec", "sock.reset_after_exec", "sock.nonok_reply", "sock.garbage_reply", "haproxy.reload_fail", "haproxy.reload_slow", "kube.read_error"}
+	register(&Profile{Name: "faults", Prop: "C12", Weight: 1,
+		Oracles: OracleSet{Property: "C12", Converge: true},
+		Build: func(seed uint64, tier string) *RunConfig {
+			r := cfgRng(seed)
+			mn, mx := tierOps(tier, 4, 16)
+			ctl := sampleCtl(r)
+			ctl.ReloadRetryMs = pickInt(r, 2000, 5000)
+			rc := &RunConfig{Property: "C12", Profile: "faults", Seed: seed, Ctl: ctl, MapOrder: r.IntN(2) == 0, Lagfree: r.IntN(2) == 0, MidSched: r.IntN(2) == 0}
+			rc.Faults = map[string]int{}
+			n := 1 + r.IntN(3)
+			for i := 0; i < n; i++ {
+				rc.Faults[allFaults[r.IntN(len(allFaults))]] = pickInt(r, 20, 50, 150, 400)
+			}
+			rc.MaxFaults = 1 + r.IntN(6)
+			rc.World, rc.Ops = GenerateRun(seed, GenOptions{Sparse: r.IntN(3) == 0, ExcludeIngressKeys: alwaysExcludedIngressKeys, MinOps: mn, MaxOps: mx,
+				QuiesceEvery: 0, KeysPerRun: pickInt(r, 3, 7)})
+			// faults stop, no further cluster change happens, then the convergence check
+			last := rc.Ops[len(rc.Ops)-1]
+			rc.Ops = append(rc.Ops[:len(rc.Ops)-1], Op{Type: "faults_off"}, last)
+			return rc
+		}})
+
 	// ---------------- C07: every generated configuration is loadable
 	register(&Profile{Name: "stress", Prop: "C07",
 		Oracles: OracleSet{Property: "C07", Loadable: true},
